@@ -5,7 +5,7 @@ from copy import deepcopy
 from typing import Any, Optional, Tuple, Union
 
 import torch
-from linear_operator.operators import LinearOperator, MaskedLinearOperator, ZeroLinearOperator
+from linear_operator.operators import LinearOperator, ZeroLinearOperator
 from torch import Tensor
 from torch.distributions import Distribution, Normal
 
@@ -46,21 +46,18 @@ class _GaussianLikelihoodBase(Likelihood):
 
         # Handle NaN values if enabled
         nan_policy = settings.observation_nan_policy.value()
+        mean, variance = input.mean, input.variance
+        num_event_dim = len(input.event_shape)
         if nan_policy == "mask":
+            # Only the marginal means and variances enter: mask them in the layout of the event (point x task for a
+            # multitask distribution, whichever order its covariance matrix is stored in)
             observed = settings.observation_nan_policy._get_observed(target, input.event_shape)
-            input = MultivariateNormal(
-                mean=input.mean[..., observed],
-                covariance_matrix=MaskedLinearOperator(
-                    input.lazy_covariance_matrix, observed.reshape(-1), observed.reshape(-1)
-                ),
-            )
-            noise = noise[..., observed]
-            target = target[..., observed]
+            mean, variance, noise, target = mean[..., observed], variance[..., observed], noise[..., observed], target[..., observed]
+            num_event_dim = 1
         elif nan_policy == "fill":
             missing = torch.isnan(target)
             target = settings.observation_nan_policy._fill_tensor(target)
 
-        mean, variance = input.mean, input.variance
         res = ((target - mean).square() + variance) / noise + noise.log() + math.log(2 * math.pi)
         res = res.mul(-0.5)
 
@@ -68,7 +65,6 @@ class _GaussianLikelihoodBase(Likelihood):
             res = res * ~missing
 
         # Do appropriate summation for multitask Gaussian likelihoods
-        num_event_dim = len(input.event_shape)
         if num_event_dim > 1:
             res = res.sum(list(range(-1, -num_event_dim, -1)))
 
@@ -85,28 +81,25 @@ class _GaussianLikelihoodBase(Likelihood):
 
         # Handle NaN values if enabled
         nan_policy = settings.observation_nan_policy.value()
+        mean, variance = marginal.mean, marginal.variance
+        num_event_dim = len(marginal.event_shape)
         if nan_policy == "mask":
+            # (see expected_log_prob: the marginal means and variances are masked in the layout of the event)
             observed = settings.observation_nan_policy._get_observed(observations, marginal.event_shape)
-            marginal = MultivariateNormal(
-                mean=marginal.mean[..., observed],
-                covariance_matrix=MaskedLinearOperator(
-                    marginal.lazy_covariance_matrix, observed.reshape(-1), observed.reshape(-1)
-                ),
-            )
-            observations = observations[..., observed]
+            mean, variance, observations = mean[..., observed], variance[..., observed], observations[..., observed]
+            num_event_dim = 1
         elif nan_policy == "fill":
             missing = torch.isnan(observations)
             observations = settings.observation_nan_policy._fill_tensor(observations)
 
         # We're making everything conditionally independent
-        indep_dist = base_distributions.Normal(marginal.mean, marginal.variance.clamp_min(1e-8).sqrt())
+        indep_dist = base_distributions.Normal(mean, variance.clamp_min(1e-8).sqrt())
         res = indep_dist.log_prob(observations)
 
         if nan_policy == "fill":
             res = res * ~missing
 
         # Do appropriate summation for multitask Gaussian likelihoods
-        num_event_dim = len(marginal.event_shape)
         if num_event_dim > 1:
             res = res.sum(list(range(-1, -num_event_dim, -1)))
         return res
